@@ -4,7 +4,8 @@
 \* Measured: 187,338 distinct / 1,353,096 generated states, depth 9.
 CONSTANTS
   NV = 4
-  Power <- MCUnitPower
+  PowerOf <- MCPowerOf
+  PowerTable <- Unit4
   MaxVal = 2
   NValid = 2
   MaxRound = 0
